@@ -25,8 +25,10 @@ TECHNIQUE = (
 )
 RULE = (
     "for every target kind (size+sha256+sha512, the same with one inconsistent hash, sha256 only, size only, no "
-    "checksums), attempt budget, number of URIs and pre-existing distfile state, every sequence of per-invocation "
-    "outcomes (file left as is / emptied / proper prefix / oversized / right size wrong content / correct, each with "
+    "checksums), fetcher configuration (distinct resume command; for sized targets also resume_command=None, where the "
+    "fetch command doubles as resume command), attempt budget, number of URIs and pre-existing distfile state, every sequence of per-invocation "
+    "outcomes (file left as is / emptied / proper prefix / oversized / right size wrong content / correct / next 12-byte "
+    "chunk appended to whatever is on disk, each with "
     "exit status 0, exit status 1 or death by a signal -- spawn status 2304 = SIGKILL << 8) that the fetcher can consume is executed against the real fetch(); the observed trace is judged "
     "for safety (returned path => file has the size and every checksum; for a target without checksums: the file exists "
     "and was not left by an invocation that did not exit 0), liveness (a correct file left by any allowed "
@@ -48,14 +50,16 @@ ASSUMPTIONS = [
     "Excl: which command (fetch or resume) is used when no file exists, and the order in which URIs are consumed "
     "(statement silent); each invocation is assumed to consume one URI, so min(attempts, URIs) is the invocation budget",
     "a 0-byte file of a target with a size is not counted as a 'resumable partial file' (resume clause judged only for a non-empty proper prefix)",
+    "with resume_command=None the fetch command is the resume command, so only 'the too-small file is left in place' is "
+    "judged there (which of the two identical commands ran cannot be observed)",
     "the attempt budget is the number of fetch-command invocations; a verification follows every invocation including the last",
     "userpriv=False; distdir on tmpfs; file contents are 35 bytes; attempts 1-4, URIs 1-4",
 ]
 BOUNDS = {
     "quick": "5 target kinds x attempts 1-3 x URIs 1-3 x 6 pre-existing states x all consumable outcome sequences "
-    "(18 outcomes per invocation; 9 for targets without checksums); real-bash pass: 3 target kinds x attempts 2 x URIs 2 x pre {absent, partial} with a 5-outcome alphabet incl. one fetch command killed by SIGKILL",
+    "(21 outcomes per invocation; 9 for targets without checksums), sized targets also with resume_command=None; real-bash pass: 3 target kinds x attempts 2 x URIs 2 x pre {absent, partial} with a 5-outcome alphabet incl. one fetch command killed by SIGKILL, plus an appending (`wget -c`-like) fetcher without resume command, attempts 3, URIs 3",
     "thorough": "5 target kinds x attempts 1-4 x URIs 1-4 x 6 pre-existing states x all consumable outcome sequences; "
-    "real-bash pass: 3 target kinds x attempts 1-2 x URIs 1-2 x pre {absent, partial, correct} with a 9-outcome alphabet incl. one fetch command killed by SIGKILL",
+    "real-bash pass: 3 target kinds x attempts 1-2 x URIs 1-2 x pre {absent, partial, correct} with a 9-outcome alphabet incl. one fetch command killed by SIGKILL, plus an appending fetcher without resume command (attempts 2-3, URIs 3, pre {absent, partial})",
 }
 
 # ----------------------------------------------------------------------------------------------------------------
@@ -75,7 +79,13 @@ BLOBS = {
 assert len(BLOBS["corrupt"]) == len(CORRECT) and BLOBS["corrupt"] != CORRECT
 STATES = ["absent", "empty", "partial", "corrupt", "oversize", "correct"]
 # an outcome is (effect, exit status); effect "nothing" leaves the distdir as it is
-EFFECTS = ["nothing", "empty", "partial", "corrupt", "oversize", "correct"]
+EFFECTS = ["nothing", "empty", "partial", "corrupt", "oversize", "correct", "append"]
+# "append": resumable progress -- the next CHUNK bytes of the correct content are appended to whatever is on disk
+# (nothing is written once the file has reached the full length), so the file only ever becomes complete if partial
+# files survive between invocations
+CHUNK = 12
+RESUME_MODES = ["distinct", "same"]  # "same": resume_command=None, the fetch command doubles as resume command
+SIZED = ("size+2hash", "inconsistent", "size-only")
 EFFECTS_NOCHK = ["nothing", "empty", "correct"]  # without checksums all non-empty contents are alike
 KILLED = 9 << 8  # what snakeoil's spawn returns for a child killed by SIGKILL
 STATUSES = (0, 1, KILLED)
@@ -132,7 +142,7 @@ def classify(kind, data, exit_status=0):
     return "good"
 
 
-def judge(kind, attempts, nuris, trace, result, final_data, expected_path):
+def judge(kind, attempts, nuris, trace, result, final_data, expected_path, rmode="distinct"):
     """trace = {"init": bytes|None, "inv": [{"cmd","uri","before","after","exit"}...]};
     result = ("path", p) | ("none",) | ("error", exception class name).  Returns [(clause, message)]."""
     msgs = []
@@ -177,7 +187,7 @@ def judge(kind, attempts, nuris, trace, result, final_data, expected_path):
             if prev and len(prev) < chk["size"]:
                 if i["before"] != prev:
                     msgs.append(("resume", f"too-small file was removed or altered before invocation {n}"))
-                elif i["cmd"] != "resume":
+                elif rmode == "distinct" and i["cmd"] != "resume":  # without a resume command the fetch command doubles as one
                     msgs.append(("resume", f"invocation {n} found a too-small file but ran the {i['cmd']} command"))
             prev = i["after"]
         if prev and len(prev) < chk["size"] and final_data != prev:
@@ -212,6 +222,26 @@ def _write_state(path, state):
             f.write(data)
 
 
+def _appended(data):
+    data = data or b""
+    if len(data) >= len(CORRECT):
+        return data
+    return data + CORRECT[len(data) : len(data) + CHUNK]
+
+
+def _apply_effect(path, eff):
+    if eff == "nothing":
+        return
+    if eff == "append":
+        cur = _read(path)
+        new = _appended(cur)
+        if new != (cur or b"") or cur is None:
+            with open(path, "ab") as f:
+                f.write(new[len(cur or b"") :])
+        return
+    _write_state(path, eff)
+
+
 def _uris(n):
     return tuple(f"http://mirror{i}.invalid/{FILENAME}" for i in range(1, n + 1))
 
@@ -228,7 +258,7 @@ def _result_of(call):
     return ("path", r)
 
 
-def run_mock(root, kind, attempts, nuris, pre, seq):
+def run_mock(root, kind, attempts, nuris, pre, seq, rmode="distinct"):
     """Execute one scripted run.  Returns None if the script was exhausted (caller branches), else (trace, result, final)."""
     from pkgcore.fetch import custom, fetchable
 
@@ -246,15 +276,14 @@ def run_mock(root, kind, attempts, nuris, pre, seq):
         words = cmd.split()
         before = _read(path)
         eff, status = script[n]
-        if eff != "nothing":
-            _write_state(path, eff)
+        _apply_effect(path, eff)
         trace["inv"].append({"cmd": words[0], "uri": words[1], "before": before, "after": _read(path), "exit": status})
         return status
 
     f = custom.fetcher(
         distdir=distdir,
         command="fetch ${URI} ${DISTDIR}/${FILE}",
-        resume_command="resume ${URI} ${DISTDIR}/${FILE}",
+        resume_command="resume ${URI} ${DISTDIR}/${FILE}" if rmode == "distinct" else None,
         userpriv=False,
         attempts=attempts,
     )
@@ -281,6 +310,10 @@ read -r eff status <<< "$line"
 if [[ -e $dest ]]; then printf %s "$(< "$dest")" > "$ctl/before.$n"; fi
 case $eff in
     nothing) ;;
+    append)
+        full=$(< "$ctl/blob.correct"); cur=""
+        if [[ -e $dest ]]; then cur=$(< "$dest"); fi
+        if (( ${#cur} < ${#full} )); then printf %s "${full:${#cur}:$(< "$ctl/chunk")}" >> "$dest"; fi ;;
     *) printf %s "$(< "$ctl/blob.$eff")" > "$dest" ;;
 esac
 if [[ -e $dest ]]; then printf %s "$(< "$dest")" > "$ctl/after.$n"; fi
@@ -290,7 +323,7 @@ exit "$status"
 """
 
 
-def run_real(root, kind, attempts, nuris, pre, seq):
+def run_real(root, kind, attempts, nuris, pre, seq, rmode="distinct"):
     """Same as run_mock but through the real spawn_bash and a bash fetch command."""
     from pkgcore.fetch import custom, fetchable
 
@@ -309,12 +342,14 @@ def run_real(root, kind, attempts, nuris, pre, seq):
         f.write("".join(f"{e} {x}\n" for e, x in seq))
     with open(os.path.join(ctl, "count"), "w") as f:
         f.write("0\n")
+    with open(os.path.join(ctl, "chunk"), "w") as f:
+        f.write(f"{CHUNK}\n")
     with open(os.path.join(ctl, "fetch.bash"), "w") as f:
         f.write(_SCRIPT)
     fo = custom.fetcher(
         distdir=distdir,
         command=f"exec bash {ctl}/fetch.bash {ctl} fetch ${{URI}} ${{DISTDIR}}/${{FILE}}",
-        resume_command=f"exec bash {ctl}/fetch.bash {ctl} resume ${{URI}} ${{DISTDIR}}/${{FILE}}",
+        resume_command=f"exec bash {ctl}/fetch.bash {ctl} resume ${{URI}} ${{DISTDIR}}/${{FILE}}" if rmode == "distinct" else None,
         userpriv=False,
         attempts=attempts,
     )
@@ -338,22 +373,27 @@ def run_real(root, kind, attempts, nuris, pre, seq):
     return trace, result, _read(path), path
 
 
-def check_one(root, mode, kind, attempts, nuris, pre, seq):
+def check_one(root, mode, kind, attempts, nuris, pre, seq, rmode="distinct"):
     """-> None (script exhausted) or (violations [(clause,msg)], class name, trace summary)."""
     runner = run_mock if mode == "mock" else run_real
-    out = runner(root, kind, attempts, nuris, pre, seq)
+    out = runner(root, kind, attempts, nuris, pre, seq, rmode)
     if out is None:
         return None
     trace, result, final, path = out
-    msgs = judge(kind, attempts, nuris, trace, result, final, path)
+    msgs = judge(kind, attempts, nuris, trace, result, final, path, rmode)
     k = len(trace["inv"])
     resumed = any(i["cmd"] == "resume" for i in trace["inv"])
     rk = result[0] if result[0] != "error" else result[1]
-    cname = f"{kind}:{rk}:{'resume' if resumed else 'plain'}"
+    if rmode == "same":
+        size = chksums_for(kind).get("size")
+        cont = size is not None and any(i["before"] and len(i["before"]) < size for i in trace["inv"])
+        cname = f"{kind}:{rk}:{'no-resume-command:continued-a-partial' if cont else 'no-resume-command'}"
+    else:
+        cname = f"{kind}:{rk}:{'resume' if resumed else 'plain'}"
     return msgs, cname, k
 
 
-def explore(root, mode, kind, attempts, nuris, pre, alphabet):
+def explore(root, mode, kind, attempts, nuris, pre, alphabet, rmode="distinct"):
     """Depth-first walk of every consumable outcome sequence."""
     evals = 0
     classes = {}
@@ -362,10 +402,10 @@ def explore(root, mode, kind, attempts, nuris, pre, alphabet):
     maxdepth = 0
     while stack:
         seq = stack.pop()
-        out = check_one(root, mode, kind, attempts, nuris, pre, seq)
+        out = check_one(root, mode, kind, attempts, nuris, pre, seq, rmode)
         if out is None:
             if len(seq) >= attempts:  # more invocations than the budget: report instead of descending further
-                viol.append(_case(mode, kind, attempts, nuris, pre, seq, "budget", f"more than {len(seq)} invocations with attempts={attempts}"))
+                viol.append(_case(mode, kind, attempts, nuris, pre, seq, "budget", f"more than {len(seq)} invocations with attempts={attempts}", rmode))
                 continue
             for o in reversed(alphabet):
                 stack.append(seq + (o,))
@@ -376,20 +416,21 @@ def explore(root, mode, kind, attempts, nuris, pre, alphabet):
         classes[cname] = classes.get(cname, 0) + 1
         classes[f"invocations={k}"] = classes.get(f"invocations={k}", 0) + 1
         if msgs:
-            viol.append(_case(mode, kind, attempts, nuris, pre, seq, msgs[0][0], msgs[0][1]))
+            viol.append(_case(mode, kind, attempts, nuris, pre, seq, msgs[0][0], msgs[0][1], rmode))
     return evals, classes, viol, maxdepth
 
 
-def _case(mode, kind, attempts, nuris, pre, seq, clause, msg):
+def _case(mode, kind, attempts, nuris, pre, seq, clause, msg, rmode="distinct"):
     return {
         "mode": mode,
+        "resume": rmode,
         "target": kind,
         "attempts": attempts,
         "uris": nuris,
         "pre": pre,
         "seq": [list(o) for o in seq],
         "clause": clause,
-        "msg": f"[{clause}] target={kind} attempts={attempts} uris={nuris} pre={pre} outcomes={[f'{e}/{x}' for e, x in seq]}: {msg}",
+        "msg": f"[{clause}] target={kind} resume_command={'distinct' if rmode == 'distinct' else None} attempts={attempts} uris={nuris} pre={pre} outcomes={[f'{e}/{x}' for e, x in seq]}: {msg}",
     }
 
 
@@ -397,6 +438,7 @@ def _case(mode, kind, attempts, nuris, pre, seq, clause, msg):
 # runner interface
 # ----------------------------------------------------------------------------------------------------------------
 REAL_ALPHA_Q = [("nothing", 1), ("partial", 1), ("corrupt", 0), ("correct", 0), ("correct", KILLED)]
+REAL_ALPHA_SAME = [("append", 1), ("append", 0), ("correct", 0)]  # a `wget -c`-like fetcher without a resume command
 REAL_ALPHA_T = REAL_ALPHA_Q + [("partial", 0), ("correct", 1), ("oversize", 0), ("empty", 1)]
 
 
@@ -408,19 +450,25 @@ def tasks(tier):
         for a in range(1, amax + 1):
             for u in range(1, umax + 1):
                 for pre in STATES:
-                    out.append(("mock", tier, kind, a, u, pre))
+                    out.append(("mock", tier, kind, a, u, pre, "distinct"))
+                    if kind in SIZED:  # only a target with a size has resumable partial files
+                        out.append(("mock", tier, kind, a, u, pre, "same"))
     # simplest first
-    out.sort(key=lambda t: (t[3], t[4], TARGETS.index(t[2]), STATES.index(t[5])))
+    out.sort(key=lambda t: (t[3], t[4], TARGETS.index(t[2]), STATES.index(t[5]), t[6]))
     if tier == "quick":
         for kind in ("size+2hash", "hash-only", "none"):
             for pre in ("absent", "partial"):
-                out.append(("real", tier, kind, 2, 2, pre))
+                out.append(("real", tier, kind, 2, 2, pre, "distinct"))
+        out.append(("real", tier, "size+2hash", 3, 3, "absent", "same"))
     else:
+        for a in (2, 3):
+            for pre in ("absent", "partial"):
+                out.append(("real", tier, "size+2hash", a, 3, pre, "same"))
         for kind in ("size+2hash", "hash-only", "none"):
             for a in (1, 2):
                 for u in (1, 2):
                     for pre in ("absent", "partial", "correct"):
-                        out.append(("real", tier, kind, a, u, pre))
+                        out.append(("real", tier, kind, a, u, pre, "distinct"))
     return out
 
 
@@ -438,9 +486,12 @@ def _mkroot():
 
 
 def work(task):
-    mode, tier, kind, attempts, nuris, pre = task
+    mode, tier, kind, attempts, nuris, pre, rmode = task
     if mode == "mock":
         alphabet = outcomes_for(kind)
+    elif rmode == "same":
+        alphabet = REAL_ALPHA_SAME
+        _check_signal_encoding()
     else:
         alphabet = REAL_ALPHA_Q if tier == "quick" else REAL_ALPHA_T
         if kind == "none":
@@ -448,7 +499,7 @@ def work(task):
         _check_signal_encoding()
     root = _mkroot()
     try:
-        evals, classes, viol, maxdepth = explore(root, mode, kind, attempts, nuris, pre, alphabet)
+        evals, classes, viol, maxdepth = explore(root, mode, kind, attempts, nuris, pre, alphabet, rmode)
     finally:
         shutil.rmtree(root, ignore_errors=True)
     if mode == "real":
@@ -462,7 +513,7 @@ def work(task):
         "evals": evals,
         "classes": classes,
         "viol": viol,
-        "samples": [{"mode": mode, "target": kind, "attempts": attempts, "uris": nuris, "pre": pre, "runs": evals}],
+        "samples": [{"mode": mode, "target": kind, "resume_command": rmode, "attempts": attempts, "uris": nuris, "pre": pre, "runs": evals}],
         "counters": {"max_invocations": maxdepth, "real_bash_runs" if mode == "real" else "mock_runs": evals},
     }
 
@@ -471,7 +522,7 @@ def replay(case):
     root = _mkroot()
     try:
         seq = tuple(tuple(o) for o in case["seq"])
-        out = check_one(root, case["mode"], case["target"], case["attempts"], case["uris"], case["pre"], seq)
+        out = check_one(root, case["mode"], case["target"], case["attempts"], case["uris"], case["pre"], seq, case.get("resume", "distinct"))
         if out is None:
             if len(seq) >= case["attempts"]:
                 return [f"more than {len(seq)} invocations with attempts={case['attempts']}"]
